@@ -4,3 +4,4 @@ import GM.Select
 import GM.Debug
 import GM.SelectExec
 import GM.CP
+import GM.Alias
